@@ -36,11 +36,58 @@ def states(tier, seed):
                 for nx in (2, 3):
                     for tp, sw, sp in itertools.product(menus["taper"], menus["sweep"], menus["span"]):
                         st.append(dict(part="multi", nsec=nsec, ny=list(nys_), root=root, nx=nx, taper=tp, sweep=sw, span=sp))
+    for sym in (True, False):
+        for mk in ("101", "111", "010", "100"):
+            st.append(dict(part="joinmeasure", nsec=2, sym=sym, masks=mk, edge=0))
+        for mk, edge in itertools.product(("101,101", "100,001", "110,011", "111,111", "010,100", "100,100", "001,010"), (0, 1)):
+            st.append(dict(part="joinmeasure", nsec=3, sym=sym, masks=mk, edge=edge))
     return st, 0
 
 
 def run_state(s):
-    return part_gen(s) if s["part"] == "gen" else part_multi(s)
+    return globals()["part_" + s["part"]](s)
+
+
+def part_joinmeasure(s):
+    """GeomMultiJoin.section_separation, the library's measure (and optimiser constraint) of 'sections join with coincident
+    edges': zero for the generated (coincident) sections whatever axes are selected per edge, and - layout-free - after a rigid
+    translation of the outboard sections its non-zero entries are the selected components of that translation, twice each"""
+    import openmdao.api as om
+
+    from openaerostruct.geometry import geometry_mesh_gen as mg
+    from openaerostruct.geometry.geometry_multi_join import GeomMultiJoin
+
+    nsec = s["nsec"]
+    sym = s["sym"]
+    surf = {"name": "surface", "is_multi_section": True, "num_sections": nsec, "sec_name": ["sec%d" % i for i in range(nsec)], "symmetry": sym, "S_ref_type": "wetted", "taper": [0.8, 0.9, 1.0][:nsec], "span": [1.5, 1.0, 2.0][:nsec], "sweep": [0.3, 0.1, 0.0][:nsec], "root_chord": 1.3, "meshes": "gen-meshes", "nx": 3, "ny": [3, 4, 2][:nsec]}
+    if not sym:
+        surf["root_section"] = nsec - 1
+    _, secs = mg.generate_mesh(surf)
+    masks = [np.array([int(c) for c in mk]) for mk in s["masks"].split(",")]
+    viol, val = [], 0
+    for shift in (None, np.array([0.31, -0.47, 0.13])):
+        ms = [m.copy() for m in secs]
+        k = s["edge"]
+        if shift is not None:
+            for i in range(k + 1):
+                ms[i] = ms[i] + shift  # sections are ordered tip -> root: move everything outboard of edge k
+        p = om.Problem(reports=False)
+        p.model.add_subsystem("j", GeomMultiJoin(sections=[{"name": "sec%d" % i, "mesh": m} for i, m in enumerate(ms)], dim_constr=masks), promotes=["*"])
+        p.setup()
+        for i, m in enumerate(ms):
+            p.set_val("sec%d_join_mesh" % i, m)
+        p.run_model()
+        sep = np.array(p["section_separation"], dtype=float)
+        val += 1
+        if shift is None:
+            if not np.abs(sep).max() <= 1e-12:
+                viol.append(dict(sig=dict(oracle="join_measure_zero_for_coincident_sections", nsec=nsec), msg="masks %s: node-for-node coincident sections are reported as separated: %s" % (s["masks"], np.array2string(sep, precision=4)), measure=float(np.abs(sep).max())))
+        else:
+            want = sorted(np.repeat(np.abs(shift[masks[k] == 1]), 2).tolist())
+            got = sorted(np.abs(sep[np.abs(sep) > 1e-12]).tolist())
+            if len(got) != len(want) or not np.allclose(got, want, rtol=0, atol=1e-12):
+                viol.append(dict(sig=dict(oracle="join_measure_reports_translation", nsec=nsec), msg="masks %s, sections outboard of edge %d moved by %s: separation %s" % (s["masks"], k, shift, np.array2string(sep, precision=4)), measure=1.0))
+    return dict(viol=viol, nontrivial=True, digest=digest_arrays(sep), transitions=2, validated=val)
 
 
 def part_gen(s):
